@@ -161,6 +161,9 @@ fn g_tree() -> BS<Tree> {
 }
 
 /// Visit every type of the family with its strategy.
+/// number of `visit` calls made by [`for_each_type`]
+pub const N_FAM_TYPES: usize = 48;
+
 pub fn for_each_type<V: TypeVisitor>(v: &mut V) {
     v.visit::<i8>("i8", ints(i8::MIN as i128, i8::MAX as i128));
     v.visit::<i16>("i16", ints(i16::MIN as i128, i16::MAX as i128));
